@@ -57,6 +57,9 @@ func resolveAlgRows(c *Ctx, ev *evaluator, fn *ssa.Function, roles map[int64]str
 	if len(fn.Params) != 1 {
 		return nil, nil, "table function has not exactly one parameter"
 	}
+	if entry := c.algEntryFields(fn); entry != nil {
+		return algEntryRows(c, fn, entry, roles)
+	}
 	tag := fn.Params[0]
 	isTag := func(v ssa.Value) bool { return v == ssa.Value(tag) }
 	res := fn.Signature.Results()
@@ -433,15 +436,27 @@ func ruleTabKeyAlg(c *Ctx, r *Rep) {
 	cv := c.globalsOfType(func(t types.Type) bool {
 		return isMapOf(t, c.isModNamed("KeyAlgorithm"), func(e types.Type) bool { return typeIs(e, "crypto/elliptic", "Curve") })
 	})
-	if len(cv) != 1 {
+	curveFn := map[int64]string{}
+	if len(cv) == 0 {
+		// no such map: the function from the algorithm to its curve is folded for every constant
+		folded, _, why := curvesByFolding(c)
+		if why != "" {
+			r.Undecided("anchor:curves", "", "no map[KeyAlgorithm]elliptic.Curve, and "+why)
+			return
+		}
+		for k, sym := range folded {
+			curveFn[k] = strings.TrimSuffix(sym, "()")
+		}
+		ks, vs = nil, nil
+	} else if len(cv) != 1 {
 		r.Undecided("anchor:curves", "", sprintf("expected one map[KeyAlgorithm]elliptic.Curve, found %d", len(cv)))
 		return
-	}
-	curveFn := map[int64]string{}
-	ks, vs, why = tableOfGlobal(c, ev, cv[0])
-	if why != "" {
-		r.Undecided("shape:"+cv[0].Name(), c.Pos(cv[0].Pos()), why)
-		return
+	} else {
+		ks, vs, why = tableOfGlobal(c, ev, cv[0])
+		if why != "" {
+			r.Undecided("shape:"+cv[0].Name(), c.Pos(cv[0].Pos()), why)
+			return
+		}
 	}
 	for i := range ks {
 		k, ok := ks[i].Int()
@@ -580,8 +595,13 @@ func ruleTabKeyAlg(c *Ctx, r *Rep) {
 				if ex, ok := v.(*ssa.Extract); ok {
 					v = ex.Tuple
 				}
-				if lk, ok := v.(*ssa.Lookup); ok && loadsGlobal(lk.X, cv[0].Object()) && algParamOf(f) != nil && lk.Index == ssa.Value(algParamOf(f)) && passedOn(f, 0) {
+				if lk, ok := v.(*ssa.Lookup); ok && len(cv) == 1 && loadsGlobal(lk.X, cv[0].Object()) && algParamOf(f) != nil && lk.Index == ssa.Value(algParamOf(f)) && passedOn(f, 0) {
 					okLookup = true
+				}
+				if call, ok := v.(*ssa.Call); ok && len(cv) == 0 {
+					if _, tabFn, why := curvesByFolding(c); why == "" && call.Call.StaticCallee() == tabFn && algParamOf(f) != nil && call.Call.Args[0] == ssa.Value(algParamOf(f)) && passedOn(f, 0) {
+						okLookup = true
+					}
 				}
 			}
 		}
@@ -616,7 +636,11 @@ func ruleTabKeyAlg(c *Ctx, r *Rep) {
 		if rs(ref, "key") == "rsa" {
 			r.Check(bits[v] == int64(ri(ref, "bits")), "rsa-bits|"+name, c.FnPos(genFn), sprintf("%d", ri(ref, "bits")), sprintf("%d", bits[v]))
 		} else {
-			r.Check(curveFn[v] == rs(ref, "curve"), "curve|"+name, c.Pos(cv[0].Pos()), rs(ref, "curve")+"() ("+rs(ref, "cite")+")", curveFn[v])
+			curvesPos := c.FnPos(genFn)
+			if len(cv) == 1 {
+				curvesPos = c.Pos(cv[0].Pos())
+			}
+			r.Check(curveFn[v] == rs(ref, "curve"), "curve|"+name, curvesPos, rs(ref, "curve")+"() ("+rs(ref, "cite")+")", curveFn[v])
 		}
 	}
 	for _, e := range enum {
@@ -818,7 +842,9 @@ func ruleTabCurveOid(c *Ctx, r *Rep) {
 		}
 	}
 	if g == nil {
-		r.Undecided("anchor:curveNameOids", "", "no map[string]ObjectIdentifier in cert")
+		if why := curveOidsByFolding(c, r); why != "" {
+			r.Undecided("anchor:curveNameOids", "", "no map[string]ObjectIdentifier in cert, and "+why)
+		}
 		return
 	}
 	ks, vs, why := tableOfGlobal(c, ev, g)
@@ -1444,6 +1470,14 @@ func isCurveOidLookup(c *Ctx, v ssa.Value) bool {
 	if ex, ok := v.(*ssa.Extract); ok {
 		v = ex.Tuple
 	}
+	if call, isCall := v.(*ssa.Call); isCall {
+		// the curve table behind a function of the certificate package: func(string) (ObjectIdentifier, bool)
+		if f := call.Call.StaticCallee(); f != nil && c.InModule(f) && f.Pkg != nil && strings.HasSuffix(f.Pkg.Pkg.Path(), "generator/cert") && len(f.Params) == 1 && isString(f.Params[0].Type()) {
+			res := f.Signature.Results()
+			return res.Len() == 2 && isOID(res.At(0).Type()) && isBoolType(res.At(1).Type())
+		}
+		return false
+	}
 	lk, ok := v.(*ssa.Lookup)
 	if !ok {
 		return false
@@ -1999,4 +2033,189 @@ func nameTableByFolding(c *Ctx, elemType string) (map[string]int64, hasPos, stri
 		out[name] = v
 	}
 	return out, fn, ""
+}
+
+// algEntryRows: the algorithm table that answers (entry, error), folded for every declared constant of its parameter
+// type. The hash itself is made from the entry's hash identifier by the caller (PROV-SIGN says so), so the row's
+// constructor is that of its identifier.
+func algEntryRows(c *Ctx, fn *ssa.Function, entry map[string]int, roles map[int64]string) (map[int64]*sigRow, map[int64]bool, string) {
+	rows := map[int64]*sigRow{}
+	errRows := map[int64]bool{}
+	tagT, _ := fn.Params[0].Type().(*types.Named)
+	if tagT == nil {
+		return nil, nil, "the table's parameter is not a named type"
+	}
+	st := fn.Signature.Results().At(0).Type().Underlying().(*types.Struct)
+	hashT := st.Field(entry["hashid"]).Type()
+	for _, k := range c.constsOf(tagT) {
+		label, exact := constant.Int64Val(k.Val())
+		if !exact {
+			continue
+		}
+		fo := c.newFolder()
+		out, ok := fo.Fold(fn, []*fval{fconst(constant.MakeInt64(label))}, 0)
+		if !ok {
+			return nil, nil, "the algorithm table cannot be folded for " + k.Name() + ": " + fo.why
+		}
+		if len(out) != 2 {
+			return nil, nil, "the algorithm table does not answer (entry, error)"
+		}
+		if !out[1].isNil {
+			errRows[label] = true
+			continue
+		}
+		e := out[0]
+		if !e.isList || len(e.list) != st.NumFields() {
+			return nil, nil, "the entry for " + k.Name() + " is not a literal"
+		}
+		row := &sigRow{pos: fn.Pos()}
+		if h := e.list[entry["hashid"]]; h.k != nil {
+			row.hashID = c.constName(hashT, h.k)
+			row.hashNew = row.hashID
+		}
+		if o := e.list[entry["oid"]]; o.isList {
+			var ints []int
+			for _, x := range o.list {
+				n, _ := constant.Int64Val(x.k)
+				ints = append(ints, int(n))
+			}
+			row.oid = oidString(ints)
+		}
+		if kk := e.list[entry["key"]]; kk.k != nil {
+			n, _ := constant.Int64Val(kk.k)
+			row.key = roles[n]
+		}
+		rows[label] = row
+	}
+	return rows, errRows, ""
+}
+
+// algDefaultIsError: a value of the parameter type that is no declared constant is answered with an error.
+func algDefaultIsError(c *Ctx, fn *ssa.Function) bool {
+	probes := []int64{1 << 20, 255, 64}
+	if tagT, ok := fn.Params[0].Type().(*types.Named); ok {
+		max := int64(-1)
+		for _, k := range c.constsOf(tagT) {
+			if v, exact := constant.Int64Val(k.Val()); exact && v > max {
+				max = v
+			}
+		}
+		probes = append(probes, max+1) // the first value behind the declared ones
+	}
+	for _, probe := range probes {
+		fo := c.newFolder()
+		out, ok := fo.Fold(fn, []*fval{fconst(constant.MakeInt64(probe))}, 0)
+		if !ok || len(out) != 2 || out[1].isNil {
+			return false
+		}
+	}
+	return true
+}
+
+// curvesByFolding: the function func(KeyAlgorithm) (elliptic.Curve, bool or error), specialised for every declared
+// constant: the library constructor whose answer it hands back, by constant.
+func curvesByFolding(c *Ctx) (map[int64]string, *ssa.Function, string) {
+	var fn *ssa.Function
+	for _, f := range c.Funcs {
+		res := f.Signature.Results()
+		if f.Parent() != nil || f.Blocks == nil || len(f.Params) != 1 || !c.isModNamed("KeyAlgorithm")(f.Params[0].Type()) || res.Len() != 2 || !typeIs(res.At(0).Type(), "crypto/elliptic", "Curve") {
+			continue
+		}
+		if fn != nil {
+			return nil, nil, "more than one func(KeyAlgorithm) (elliptic.Curve, ...)"
+		}
+		fn = f
+	}
+	if fn == nil {
+		return nil, nil, "no func(KeyAlgorithm) (elliptic.Curve, ...) to fold"
+	}
+	out := map[int64]string{}
+	for _, k := range c.constsOf(fn.Params[0].Type().(*types.Named)) {
+		label, exact := constant.Int64Val(k.Val())
+		if !exact {
+			continue
+		}
+		fo := c.newFolder()
+		res, ok := fo.Fold(fn, []*fval{fconst(constant.MakeInt64(label))}, 0)
+		if !ok {
+			return nil, nil, "the function from an algorithm to its curve cannot be folded for " + k.Name() + ": " + fo.why
+		}
+		if len(res) == 2 && res[0].sym != "" {
+			out[label] = res[0].sym
+		}
+	}
+	return out, fn, ""
+}
+
+// curveOidsByFolding: TAB-CURVEOID where the curves are a table of entries behind functions: algorithm -> curve (folded),
+// curve name -> OID (the function func(string) (ObjectIdentifier, bool) folded for the library name of that curve), and
+// the inverse OID -> curve (folded) must lead back to the curve of the same algorithm.
+func curveOidsByFolding(c *Ctx, r *Rep) string {
+	curves, curveFnF, why := curvesByFolding(c)
+	if why != "" {
+		return why
+	}
+	var byName, inverse *ssa.Function
+	for _, f := range c.Funcs {
+		res := f.Signature.Results()
+		if f.Parent() != nil || f.Blocks == nil || f.Pkg == nil || !strings.HasSuffix(f.Pkg.Pkg.Path(), "generator/cert") || len(f.Params) != 1 || res.Len() != 2 {
+			continue
+		}
+		if isString(f.Params[0].Type()) && isOID(res.At(0).Type()) && isBoolType(res.At(1).Type()) {
+			byName = f
+		}
+		if isOID(f.Params[0].Type()) && typeIs(res.At(0).Type(), "crypto/elliptic", "Curve") && isErrorType(res.At(1).Type()) {
+			inverse = f
+		}
+	}
+	if byName == nil || inverse == nil {
+		return "no func(string) (ObjectIdentifier, bool) / func(ObjectIdentifier) (elliptic.Curve, error) to fold"
+	}
+	keyAlg := c.NamedType("generator/cert", "KeyAlgorithm")
+	consts := c.constsOf(keyAlg)
+	seenOid := map[string]string{}
+	pos := c.FnPos(curveFnF)
+	for _, ref := range refList("curves") {
+		cn := rs(ref, "const")
+		k := consts[cn]
+		if k == nil {
+			r.Bad("const|"+cn, pos, "key algorithm constant for "+cn, "none")
+			continue
+		}
+		v, _ := constant.Int64Val(k.Val())
+		sym := curves[v]
+		name := curveLibraryName(sym)
+		got := ""
+		var oidVal *fval
+		if name != "" {
+			fo := c.newFolder()
+			if out, ok := fo.Fold(byName, []*fval{fconst(constant.MakeString(name))}, 0); ok && len(out) == 2 && out[1].k != nil && constant.BoolVal(out[1].k) && out[0].isList {
+				var ints []int
+				for _, e := range out[0].list {
+					n, _ := constant.Int64Val(e.k)
+					ints = append(ints, int(n))
+				}
+				got = oidString(ints)
+				oidVal = out[0]
+			} else if !ok {
+				return "the function from a curve name to its OID cannot be folded for " + name + ": " + fo.why
+			}
+		}
+		r.Check(got == rs(ref, "oid"), "curve-oid|"+cn, c.FnPos(byName), rs(ref, "oid")+" ("+rs(ref, "cite")+")", got)
+		if prev, dup := seenOid[got]; dup && got != "" {
+			r.Bad("oid-distinct|"+cn, c.FnPos(byName), "a distinct OID per curve", "same as "+prev)
+		}
+		seenOid[got] = cn
+		back := ""
+		if oidVal != nil {
+			fo := c.newFolder()
+			if out, ok := fo.Fold(inverse, []*fval{oidVal}, 0); ok && len(out) == 2 && out[1].isNil {
+				back = out[0].sym
+			} else if !ok {
+				return "the function from an OID to its curve cannot be folded: " + fo.why
+			}
+		}
+		r.Check(back != "" && back == sym, "inverse|"+cn, c.FnPos(inverse), "the curve found for "+rs(ref, "oid")+" is the curve of "+cn, back)
+	}
+	return ""
 }
